@@ -60,6 +60,43 @@ impl Size {
     }
 }
 
+/// The key-capture idiom: a rule that captures the keys of the resources of one type
+/// (`Resources[ capN | Type == 'T' ] !empty`), a file-level `let` counting the captured keys, and a
+/// rule that refers to the capturing rule and then uses both variables. Appended to `file`.
+pub fn add_capture_idiom(u: &mut Choices, file: &mut File, doc: &V) {
+    let types = doc_types(doc);
+    let n = file.rules.len();
+    let ty = if !types.is_empty() && u.chance(4, 5) { types[u.below(types.len())].clone() } else { "AWS::No::Such".to_string() };
+    let cap = format!("cap{}", n);
+    let cnt = format!("cap{}n", n);
+    let def = format!("capdef{}", n);
+    let filt = vec![vec![Item::Clause(cl_bin(q_key(&["Type"]), BinOp::Eq, false, Lit::V(V::Str(ty))))]];
+    let capq = Query { head: Head::Key("Resources".into()), parts: vec![Part::CapFilter(cap.clone(), filt)] };
+    file.lets.push(Let { name: cnt.clone(), value: Expr::Call(Call { name: "count".into(), args: vec![Expr::Query { some: false, q: Query { head: Head::Var(cap.clone()), parts: vec![] } }] }) });
+    let def_rule = Rule { name: def.clone(), when: None, lets: vec![], body: vec![vec![Item::Clause(cl_un(capq, if u.chance(1, 2) { UnOp::Empty } else { UnOp::Exists }, u.chance(1, 2)))]] };
+    let k = u.below(4) as i64;
+    let mut body = vec![vec![Item::Ref { neg: false, name: def.clone(), msg: None }]];
+    if u.chance(1, 3) {
+        body[0].push(Item::Ref { neg: true, name: def.clone(), msg: None });
+    }
+    body.push(vec![Item::Clause(cl_bin(Query { head: Head::Var(cnt), parts: vec![] }, *u.pick(&[BinOp::Eq, BinOp::Le, BinOp::Gt]), false, Lit::V(V::Int(k))))]);
+    if u.chance(1, 2) {
+        body.push(vec![Item::Clause(cl_un(Query { head: Head::Var(cap.clone()), parts: vec![] }, UnOp::Empty, true))]);
+    }
+    if u.chance(1, 2) {
+        body.push(vec![Item::Clause(cl_bin(Query { head: Head::Var(cap), parts: vec![] }, BinOp::In, false, Lit::V(V::List(vec![V::s("res0"), V::s("res1"), V::s("twin")]))))]);
+    }
+    let use_rule = Rule { name: format!("capuse{}", n), when: None, lets: vec![], body };
+    // either order in the file
+    if u.chance(1, 2) {
+        file.rules.push(def_rule);
+        file.rules.push(use_rule);
+    } else {
+        file.rules.push(use_rule);
+        file.rules.push(def_rule);
+    }
+}
+
 /// the same words in four naming conventions: [Pascal, snake, camel, kebab]
 pub const CASE_FAMILIES: [[&str; 4]; 2] = [["SizeLimit", "size_limit", "sizeLimit", "size-limit"], ["LogLevel", "log_level", "logLevel", "log-level"]];
 
@@ -654,6 +691,8 @@ pub fn sample_ctx(ctx: &V, parts: &[Part]) -> Option<V> {
             (Part::AllIdx, _) | (Part::Star, _) => v.clone(),
             (Part::Filter(_), V::List(l)) => l.first()?.clone(),
             (Part::Filter(_), _) => v.clone(),
+            (Part::CapFilter(..), V::Map(m)) => m.first()?.1.clone(),
+            (Part::CapFilter(..), _) => v.clone(),
             _ => return None,
         };
     }
